@@ -158,6 +158,7 @@ func runC07(c *Ctx) {
 	absSites := map[string]*absVerdict{} // func|pos
 	absFuncs := map[string]bool{}
 	e := abs.NewEngine(P)
+	e.FailReads = true // truncated input: every transport read may deliver fewer bytes than asked and fail
 	for _, d := range c07Decoders() {
 		d := d
 		fn := P.Func(d.pkg, d.fn)
@@ -313,6 +314,62 @@ func runC07(c *Ctx) {
 	sort.Slice(all, func(i, j int) bool { return core.QualName(all[i]) < core.QualName(all[j]) })
 	checkLockReleased(c, all)
 	checkLoopCarriedCopy(c, all)
+	checkNilFuncValues(c, all)
+}
+
+// checkNilFuncValues: a function value selected by a switch/if without a default stays nil on the unmatched path; when
+// the selector is message-controlled (a key size, an algorithm) its later call is a nil dereference. Every merge (phi)
+// of function type that has a nil edge must have all its uses guarded by a nil test.
+func checkNilFuncValues(c *Ctx, fns []*ssa.Function) {
+	P, R := c.P, c.R
+	counts := map[string]int{}
+	examined := 0
+	for _, fn := range fns {
+		core.EachInstr(fn, func(in ssa.Instruction) {
+			phi, ok := in.(*ssa.Phi)
+			if !ok {
+				return
+			}
+			if _, isSig := phi.Type().Underlying().(*types.Signature); !isSig {
+				return
+			}
+			examined++
+			hasNil := false
+			for _, e := range phi.Edges {
+				if core.IsNilConst(e) {
+					hasNil = true
+				}
+			}
+			if !hasNil {
+				return
+			}
+			key := ordKey(counts, core.QualName(fn)+"|func-value "+phi.Comment)
+			var bad ssa.Instruction
+			for _, u := range *phi.Referrers() {
+				if _, isDbg := u.(*ssa.DebugRef); isDbg {
+					continue
+				}
+				if bo, isCmp := u.(*ssa.BinOp); isCmp && (bo.Op == token.EQL || bo.Op == token.NEQ) {
+					continue
+				}
+				guarded := false
+				for _, a := range core.GuardAtoms(u.Block()) {
+					if a.LV == ssa.Value(phi) && a.Op == "!=" && (a.R == "nil" || strings.HasPrefix(a.R, "nil:")) {
+						guarded = true
+					}
+				}
+				if !guarded {
+					bad = u
+				}
+			}
+			if bad == nil {
+				R.OK("C07.nil", key, P.InstrPos(phi), "every use of the possibly-nil function value is behind a nil test")
+			} else {
+				R.Fail("C07.nil", key, P.InstrPos(bad), fmt.Sprintf("the function value %s is nil on a path through the selection at %s (no case matched) and is used here without a nil test: calling it panics", phi.Comment, P.InstrPos(phi)), nil)
+			}
+		})
+	}
+	R.Extra["func_typed_merges_examined"] = examined
 }
 
 // checkLockReleased (part of "always returns"): a mutex taken while decoding is released on every path to a return
@@ -936,7 +993,7 @@ func checkFormatFact(c *Ctx) {
 // checkEnums: every method of a named integer type is total over the type's range.
 func checkEnums(c *Ctx, e *abs.Engine) {
 	P, R := c.P, c.R
-	for _, pkg := range []string{"aac", "flv", "avc", "amf0", "rtmp"} {
+	for _, pkg := range []string{"aac", "flv", "avc", "amf0", "rtmp", "websocket", "https/crypto/ocsp", "https/jose"} {
 		sp := P.SSAPkgs[pkg]
 		if sp == nil {
 			continue
@@ -1027,6 +1084,53 @@ func checkPreconds(c *Ctx, reach map[*ssa.Function]bool) {
 			}
 		})
 	}
+	// cipher.BlockMode.CryptBlocks panics unless the input is a whole number of blocks
+	nb := 0
+	for fn := range reach {
+		pk := core.ShortPkg(fn)
+		if pk != "https/jose" && pk != "https/jose/cipher" {
+			continue
+		}
+		core.EachInstr(fn, func(in ssa.Instruction) {
+			call, ok := in.(*ssa.Call)
+			if !ok || !call.Call.IsInvoke() || call.Call.Method.Name() != "CryptBlocks" {
+				return
+			}
+			nb++
+			src := call.Call.Args[1]
+			guarded := false
+			for _, g := range core.Guards(call.Block()) {
+				a, isCmp := core.AtomOf(g)
+				if !isCmp {
+					continue
+				}
+				// len(src) % BlockSize() == 0   (any spelling: !(x%y > 0), x%y == 0)
+				rem, isRem := core.StripConv(a.LV).(*ssa.BinOp)
+				if !isRem || rem.Op != token.REM {
+					continue
+				}
+				k, isK := core.ConstInt(a.RV)
+				zero := isK && k == 0 && (a.Op == "==" || a.Op == "<=")
+				if !zero {
+					continue
+				}
+				if lc, isCall := core.StripConv(rem.X).(*ssa.Call); isCall {
+					if bi, isB := lc.Call.Value.(*ssa.Builtin); isB && bi.Name() == "len" && sameValue(lc.Call.Args[0], src) {
+						if bs, isBS := core.StripConv(rem.Y).(*ssa.Call); isBS && bs.Call.IsInvoke() && bs.Call.Method.Name() == "BlockSize" {
+							guarded = true
+						}
+					}
+				}
+			}
+			if !guarded && encryptSide(fn) {
+				// the encrypt side pads its own plaintext to a whole number of blocks (padBuffer)
+				guarded = paddedBefore(call, src)
+			}
+			R.Check(guarded, "C07.precond", fmt.Sprintf("%s|%s|cryptblocks-whole-blocks#%d", pk, core.FuncName(fn), nb), P.InstrPos(call),
+				"the buffer handed to CryptBlocks is a whole number of cipher blocks (length tested against BlockSize(), or padded by this function)",
+				"BlockMode.CryptBlocks is called on a buffer derived from the message without a test that its length is a multiple of BlockSize(): crypto/cipher panics with 'input not full blocks'", nil)
+		})
+	}
 	if ku := P.Func("https/jose/cipher", "KeyUnwrap"); R.Anchor(ku != nil, "C07.precond", "https/jose/cipher.KeyUnwrap") {
 		// abstract interpretation of the prologue: the make length is proven non-negative
 		e := abs.NewEngine(P)
@@ -1048,6 +1152,30 @@ func checkPreconds(c *Ctx, reach map[*ssa.Function]bool) {
 		}
 		report(R, "C07.precond", "https/jose/cipher|KeyUnwrap|make-length", P.Pos(ku.Pos()), "the computed make length is proven non-negative", "", dedup(problems), nil)
 	}
+}
+
+// encryptSide: the function produces ciphertext (Seal), its input is the caller's plaintext, not message bytes.
+func encryptSide(fn *ssa.Function) bool { return fn.Name() == "Seal" }
+
+// paddedBefore: src is the result of this package's padBuffer.
+func paddedBefore(call *ssa.Call, src ssa.Value) bool {
+	v := core.StripConv(src)
+	for i := 0; i < 4; i++ {
+		switch x := v.(type) {
+		case *ssa.Call:
+			if f := x.Call.StaticCallee(); f != nil && f.Name() == "padBuffer" {
+				return true
+			}
+			return false
+		case *ssa.Slice:
+			v = x.X
+		case *ssa.Extract:
+			v = x.Tuple
+		default:
+			return false
+		}
+	}
+	return false
 }
 
 // checkNilJSON: pointer fields populated by encoding/json are tested before use.
@@ -1200,9 +1328,16 @@ func checkEphemeralKeyValidated(c *Ctx) {
 		return
 	}
 	ok := false
+	wrongCurve := ""
 	core.EachInstr(fn, func(in ssa.Instruction) {
 		call, isCall := in.(*ssa.Call)
 		if !isCall || !call.Call.IsInvoke() || call.Call.Method.Name() != "IsOnCurve" {
+			return
+		}
+		// the curve asked must be the recipient's (the private key's), the one DeriveECDHES computes on - not the
+		// curve the message's own key claims
+		if rp := core.Path(call.Call.Value); !strings.Contains(rp, "privateKey") {
+			wrongCurve = rp
 			return
 		}
 		for _, r := range *call.Referrers() {
@@ -1231,7 +1366,7 @@ func checkEphemeralKeyValidated(c *Ctx) {
 	}
 	R.Check(ok && only, "C07.panic", "https/jose|(ecDecrypterSigner).decryptKey|ephemeral-key-validated", P.Pos(fn.Pos()),
 		"the peer's ephemeral public key is checked to be on the private key's curve before key derivation (whose panics test exactly that)",
-		"the peer's ephemeral key reaches DeriveECDHES without an on-curve check: DeriveECDHES panics on an invalid point sent by the peer", nil)
+		"the peer's ephemeral key reaches DeriveECDHES without an on-curve check against the recipient's curve"+map[bool]string{true: " (the check asks " + wrongCurve + ", the key's own curve)", false: ""}[wrongCurve != ""]+": DeriveECDHES panics on a point that is not on the private key's curve", nil)
 }
 
 // c07PanicGuards: functions whose panic is unreachable for wire data, with the guard (confirmed by reading).
